@@ -195,6 +195,20 @@ impl<'ast> Visit<'ast> for V {
         ));
         syn::visit::visit_item_enum(self, i);
     }
+    fn visit_item_macro(&mut self, i: &'ast syn::ItemMacro) {
+        if is_cfg_test(&i.attrs) {
+            return;
+        }
+        let name = i.mac.path.to_token_stream().to_string().replace(' ', "");
+        self.items.push(format!(
+            "{{\"kind\":\"macro\",\"name\":{},\"path\":{},\"file\":{},\"line\":{},\"attrs\":[],\"t\":{}}}",
+            js(&name),
+            js(&self.qual(&name)),
+            js(&self.file),
+            i.mac.bang_token.span.start().line,
+            toks_json(i.mac.tokens.clone())
+        ));
+    }
     fn visit_item_impl(&mut self, i: &'ast syn::ItemImpl) {
         if is_cfg_test(&i.attrs) {
             return;
